@@ -183,3 +183,84 @@ package cache
 //@   requires !held(lru.mu)
 //@   ensures length == cs(lru.list.lcnt) && size == cs(lru.size) && capacity == cs(lru.capacity) && evictions == cs(lru.evictions) && unchanged(lru)
 //@   modifies LRUCache.list, LRUCache.table, LRUCache.size, LRUCache.capacity, LRUCache.evictions, mapsof(lru.table), list.List.lmem, list.List.lcnt, list.Element.lrk, list.Element.Value, entry.key, entry.value, entry.size
+//
+// ==================== C05: TTL memory cache ====================
+//@ assumption ttlMemCache: the clock (package variable `now`) does not advance within one cache operation; clock + ttl does not overflow int64; size >= 0
+//@ ghost clockNow int64
+//@ ghost optTTL int64
+//@ ghost optA bool
+//@ ghost optB bool
+//
+// `now` is a function-typed package variable: it returns the ghost clock reading.
+//@ func funcval now
+//@   trusted the clock: returns the (arbitrary) current reading clockNow, no side effects
+//@   ensures result == clockNow
+//@   modifies
+//
+// Option closures: after at least one option function ran, the option struct holds arbitrary values
+// (mirrored in the ghosts optTTL/optA/optB so that postconditions can name them): every combination of
+// WithTTL / WithMustNotExist / WithKeepTTL (resp. WithRemoveAfterGet / WithUpdateTTL) is covered.
+//@ func funcval fn
+//@   trusted option closure: sets the option struct to arbitrary values (ttl below 2^62)
+//@   ensures (forall s *setOption :: { s.ttl } s.ttl < 4611686018427387904) && (forall g *getOption :: { g.ttl } g.ttl < 4611686018427387904)
+//@   modifies setOption.ttl, setOption.mustNotExist, setOption.keepTTL, getOption.ttl, getOption.removeAfterGet, getOption.updateTTL
+//
+//@ pure node(e *list.Element) *ttlNode = *ttlNode(e.Value)
+//@ pure isnode(e *list.Element) bool = tag(e.Value) == tag(any(*ttlNode(nil))) && node(e) != nil
+//@ pure tri(c *ttlMemCache) bool = c.eleList != nil && c.eleHash != nil && lwf(c.eleList) && c.size >= 0 && c.eleList.lcnt <= c.size && (forall k string :: { has(c.eleHash, k) } has(c.eleHash, k) ==> c.eleHash[k] != nil && c.eleList.lmem[c.eleHash[k]] && node(c.eleHash[k]).key == k) && (forall e *list.Element :: { c.eleList.lmem[e] } c.eleList.lmem[e] ==> isnode(e) && allocated(e) && allocated(node(e)) && has(c.eleHash, node(e).key) && c.eleHash[node(e).key] == e) && (forall e1 *list.Element, e2 *list.Element :: { c.eleList.lmem[e1], c.eleList.lmem[e2] } c.eleList.lmem[e1] && c.eleList.lmem[e2] && e1 != e2 ==> node(e1) != node(e2))
+//@ pure live(c *ttlMemCache, k string) bool = has(c.eleHash, k) && clockNow <= node(c.eleHash[k]).deadline
+//@ pure dl(ttl int64) int64 = ite(ttl <= 0, 9223372036854775807, clockNow + ttl)
+//@ pure terrs() bool = ErrTTLKeyExists != nil && ErrTTLKeyNotFound != nil && ErrTTLKeyExists != ErrTTLKeyNotFound
+//
+//@ guarded ttlMemCache.eleList by ttlMemCache.RWMutex
+//@ guarded ttlMemCache.eleHash by ttlMemCache.RWMutex
+//@ monitor ttlMemCache.RWMutex
+//@   havoc mapsof(self.eleHash), list.List.lmem, list.List.lcnt, list.Element.lrk, list.Element.Value, ttlNode.key, ttlNode.value, ttlNode.deadline
+//@   invariant #tri tri(self)
+//@   assume clockNow < 4611686018427387904 && self.ttl < 4611686018427387904 && optTTL < 4611686018427387904
+//
+//@ func deadline
+//@   requires ttl < 4611686018427387904 && clockNow < 4611686018427387904
+//@   ensures result == dl(ttl)
+//@   modifies
+//
+//@ func ttlMemCache.remove
+//@   requires wheld(t.RWMutex) && t.eleList != nil && lwf(t.eleList) && t.eleHash != nil && node != nil
+//@   ensures #list ele != nil ==> (old(t.eleList.lmem[ele]) ==> t.eleList.lmem == store(old(t.eleList.lmem), ele, false) && t.eleList.lcnt == old(t.eleList.lcnt) - 1) && (!old(t.eleList.lmem[ele]) ==> t.eleList.lmem == old(t.eleList.lmem) && t.eleList.lcnt == old(t.eleList.lcnt))
+//@   ensures #hash ele != nil ==> !has(t.eleHash, node.key) && forall k string :: { has(t.eleHash, k) } k != node.key ==> has(t.eleHash, k) == old(has(t.eleHash, k)) && t.eleHash[k] == old(t.eleHash[k])
+//@   ensures #noop ele == nil ==> t.eleList.lmem == old(t.eleList.lmem) && t.eleList.lcnt == old(t.eleList.lcnt) && forall k string :: { has(t.eleHash, k) } has(t.eleHash, k) == old(has(t.eleHash, k)) && t.eleHash[k] == old(t.eleHash[k])
+//@   modifies entries(t.eleHash), t.eleList.lmem, t.eleList.lcnt
+//
+//@ func ttlMemCache.removeTail
+//@   inline
+//
+//@ func ttlMemCache.set
+//@   property C05
+//@   requires wheld(t.RWMutex) && tri(t) && terrs() && clockNow < 4611686018427387904 && t.ttl < 4611686018427387904 && optTTL < 4611686018427387904
+//@   ensures #tri tri(t)
+//@   ensures #exists old(live(t, key)) && o.mustNotExist ==> result == ErrTTLKeyExists
+//@   ensures #absentok !old(live(t, key)) ==> result == nil
+//@   ensures #existsiff result != nil ==> result == ErrTTLKeyExists && old(live(t, key)) && o.mustNotExist
+//@   ensures #stored result == nil && t.size > 0 ==> has(t.eleHash, key) && node(t.eleHash[key]).value == value && (forall x *list.Element :: { t.eleList.lmem[x] } t.eleList.lmem[x] && x != t.eleHash[key] ==> t.eleHash[key].lrk < x.lrk)
+//@   ensures #deadline result == nil && t.size > 0 ==> node(t.eleHash[key]).deadline == ite(old(live(t, key)) && o.keepTTL, old(node(t.eleHash[key]).deadline), dl(o.ttl))
+//@   ensures #bounded t.eleList.lcnt <= t.size
+//@   ensures #evictlru forall r *list.Element, e *list.Element :: { old(t.eleList.lmem[r]), t.eleList.lmem[e] } old(t.eleList.lmem[r]) && !t.eleList.lmem[r] && t.eleList.lmem[e] && old(t.eleList.lmem[e]) && (old(live(t, key)) || r != old(t.eleHash[key])) ==> old(e.lrk) < old(r.lrk)
+//@   ensures #atmostone t.eleList.lcnt >= old(t.eleList.lcnt) - 1
+//@   modifies entries(t.eleHash), t.eleList.lmem, t.eleList.lcnt, list.Element.lrk, list.Element.Value, ttlNode.key, ttlNode.value, ttlNode.deadline, setOption.ttl, setOption.mustNotExist, setOption.keepTTL, getOption.ttl, getOption.removeAfterGet, getOption.updateTTL, region($alloc)
+//@   loop 1
+//@     invariant o != nil && isfresh(o) && wheld(t.RWMutex) && tri(t) && (forall k string :: { has(t.eleHash, k) } has(t.eleHash, k) == old(has(t.eleHash, k)) && t.eleHash[k] == old(t.eleHash[k])) && t.eleList.lmem == old(t.eleList.lmem) && t.eleList.lcnt == old(t.eleList.lcnt) && (forall e *list.Element :: { e.lrk } e.lrk == old(e.lrk)) && (forall e *list.Element :: { e.Value } e.Value == old(e.Value)) && (forall n *ttlNode :: { n.deadline } n.deadline == old(n.deadline)) && (forall n *ttlNode :: { n.key } n.key == old(n.key)) && o.ttl < 4611686018427387904
+//
+//@ func ttlMemCache.get
+//@   property C05
+//@   requires wheld(t.RWMutex) && tri(t) && terrs() && clockNow < 4611686018427387904 && t.ttl < 4611686018427387904
+//@   ensures #tri tri(t)
+//@   ensures #hit result1 == nil <==> old(live(t, key))
+//@   ensures #value result1 == nil ==> result0 == old(node(t.eleHash[key]).value)
+//@   ensures #miss result1 != nil ==> result1 == ErrTTLKeyNotFound
+//@   ensures #expiredremoved old(has(t.eleHash, key)) && !old(live(t, key)) ==> !has(t.eleHash, key)
+//@   ensures #oneshot result1 == nil && o.removeAfterGet ==> !has(t.eleHash, key)
+//@   ensures #kept result1 == nil && !o.removeAfterGet ==> has(t.eleHash, key) && t.eleHash[key] == old(t.eleHash[key]) && node(t.eleHash[key]).deadline == ite(o.updateTTL, dl(o.ttl), old(node(t.eleHash[key]).deadline)) && (forall x *list.Element :: { t.eleList.lmem[x] } t.eleList.lmem[x] && x != t.eleHash[key] ==> t.eleHash[key].lrk < x.lrk)
+//@   ensures #others forall k string :: { has(t.eleHash, k) } k != key ==> has(t.eleHash, k) == old(has(t.eleHash, k)) && t.eleHash[k] == old(t.eleHash[k])
+//@   modifies entries(t.eleHash), t.eleList.lmem, t.eleList.lcnt, list.Element.lrk, ttlNode.deadline, setOption.ttl, setOption.mustNotExist, setOption.keepTTL, getOption.ttl, getOption.removeAfterGet, getOption.updateTTL, region($alloc)
+//@   loop 1
+//@     invariant o != nil && isfresh(o) && wheld(t.RWMutex) && tri(t) && (forall k string :: { has(t.eleHash, k) } has(t.eleHash, k) == old(has(t.eleHash, k)) && t.eleHash[k] == old(t.eleHash[k])) && t.eleList.lmem == old(t.eleList.lmem) && t.eleList.lcnt == old(t.eleList.lcnt) && (forall e *list.Element :: { e.lrk } e.lrk == old(e.lrk)) && (forall n *ttlNode :: { n.deadline } n.deadline == old(n.deadline)) && o.ttl < 4611686018427387904
